@@ -125,3 +125,18 @@ func TestGovcC10_CommitsQueryByDocIDHidesPrivateDoc(t *testing.T) {
 	}
 	testUtils.ExecuteTestCase(t, test)
 }
+
+// showDeleted: a requester without read permission gets the public documents only - and gets an answer
+func TestGovcC10_ShowDeletedHidesPrivateDocAndReturns(t *testing.T) {
+	test := testUtils.TestCase{
+		Actions: append(c10Setup(),
+			testUtils.CreateDoc{CollectionID: 0, Doc: `{"name": "Public", "age": 1}`},
+			testUtils.Request{
+				Identity: testUtils.ClientIdentity(2),
+				Request:  `query { Users(showDeleted: true) { name } }`,
+				Results:  map[string]any{"Users": []map[string]any{{"name": "Public"}}},
+			},
+		),
+	}
+	testUtils.ExecuteTestCase(t, test)
+}
